@@ -360,7 +360,7 @@ def _run_one(tier, seed, jobs, budget, world_kw):
             for perm in permutations_for(refs[st]['n'], tier, rng):
                 delays = {k: round(STEP * rank, 3) for k, rank in enumerate(perm)}
                 cases.append((st, 'order', REF_NPROC[st], delays, perm))
-            for np_ in (OTHER_NPROC[st] if tier == 'thorough' else OTHER_NPROC[st][:1 + (st == 'stats')]):
+            for np_ in (OTHER_NPROC[st] if tier == 'thorough' else OTHER_NPROC[st][:1 + (st in ('stats', 'mapping', 'election'))]):
                 cases.append((st, 'workers', np_, None, None))
         realised = {st: set() for st in stages}
         done, step = 0, max(6, jobs * 3)
